@@ -62,7 +62,7 @@ def stiff_configs(states):
 
 
 def bounds(tier):
-    return {"x_rates": list(XR), "y_rates": list(YR), "stiff_configs": len(stiff_configs(["x", "y", "z"])), "deltas": [1e-8, 0.5],
+    return {"x_rates": list(XR), "y_rates": list(YR), "stiff_configs": len(stiff_configs(["x", "y", "z"])), "deltas": [1e-8, 0.5, 0.0],
             "backends": ["numpy", "c"] + (["jax"] if tier != "quick" else [])}
 
 
@@ -89,7 +89,7 @@ def run_item(item):
     if len(pts) > 243:
         pts = [pt for pt in pts if all(v in (-1.0, 0.5, 2.0, 0.25) for v in pt.values())] or pts[:243]
     backends = ("numpy", "c") if tier == "quick" else ("numpy", "c", "jax")
-    for delta in (1e-8, 0.5):
+    for delta in (1e-8, 0.5, 0.0):
         for cname, stiff in stiff_configs(ref.states):
             if tier == "quick" and "foreign" in cname and cname not in ("{x}+foreign", "foreign-only") and key.split("|")[1] not in ("affine[p,1]", "gate", "x**2"):
                 continue  # quick: the subset x foreign-name-count product only for three x-rates
